@@ -169,6 +169,10 @@ class Problem(object):
             av = abs(v)
             if not (rmp.isfinite(av) and rmp.isfinite(S)):
                 raise ArithmeticError('non-finite reference value')
+            if av == 0 or rmp.mag(av) < -(10 * p + 1000):
+                # |f(x)| is astronomically small (e.g. exp(-x) at a huge x): no need for its exact value
+                Sq = fr(S) if rmp.mag(S) > -(10 * p + 1000) else Fr(1, 1 << (10 * p))
+                return Fr(0), Fr(1, 1 << (10 * p)), Sq, 32
             slack = rmp.ldexp(S, -(2 * p + 100))
             lo = fr(av - slack) if av > slack else Fr(0)
             hi = fr(av + slack)
